@@ -437,6 +437,10 @@ S4_MORE["C07"] += (" _read_peer under contract (10 direction-key configurations 
                   "and DT, ValueError when a count or a time step disagrees; the arrangement for concrete keys against an independently written statement of the PEER convention "
                   "(UP / VER vertical, the horizontal closest to north modulo 360 is north and its azimuth the orientation; letter codes ending Z / N / E; anything else refused); "
                   "all three components cut to the shortest.")
+S4_MORE["C20"] = ("Azimuthal contour under contract: _azimuthal_mesh_from_hvsr (three azimuths) - frequency along the columns, the object's azimuths down the rows with a closing row at "
+                 "180 degrees, row r the mean curve of azimuth r for the distribution asked for and the closing row that of the first azimuth; plot_azimuthal_contour_2d - one "
+                 "filled contour of exactly those three grids in that order, one marker line of the per-azimuth mean-curve peak frequencies (same distribution) against the "
+                 "object's azimuth list, frequency axis from the first to the last frequency, nothing written to the object.")
 for _k, _v in S4_MORE.items():
     S4[_k] = ((S4[_k][0] + " " + _v,) + tuple(S4[_k][1:])) if _k in S4 else (_v, None, None)
 for _pid, (_t, _n, _tech) in S4.items():
@@ -472,5 +476,6 @@ S4_ASSUME = {
  "C19": ["hvsrpy.read / preprocess / process / write_hvsr_object_to_file opaque stages (their contracts: C07, C10/C17, C01..C05, C12)", "deepcopy preserves content", "pathlib.Path(fname).stem + '.csv' as an uninterpreted function of the file name",
          "A-POOL in cli(): Pool(n) / starmap(function, tasks, chunksize) recorded, not executed; os.cpu_count() >= 2 and --nproc >= 1 are preconditions (otherwise the command fails before any file is processed)",
          "click delivers the options as the keyword dictionary of cli() (decorators not modelled)"],
- "C20": ["matplotlib Axes and pandas as recorders of what they are handed", "plot_single_panel_hvsr_curves may raise ValueError at any call (nondeterministic) in the pre/post proof", "A-NP-WHERE for the enumeration of selected rows", "statistics accessors opaque functions of (object, distribution, n) (contracts: C05, C08, C11)"],
+ "C20": ["matplotlib Axes and pandas as recorders of what they are handed", "plot_single_panel_hvsr_curves may raise ValueError at any call (nondeterministic) in the pre/post proof", "A-NP-WHERE for the enumeration of selected rows", "statistics accessors opaque functions of (object, distribution, n) (contracts: C05, C08, C11)",
+         "np.meshgrid / np.vstack by their definition (A-NP-ELEM); mean_curve_by_azimuth / mean_curve_peak_by_azimuth opaque tables of the distribution; three azimuths; colour bar and tick cosmetics opaque"],
 }
